@@ -11,6 +11,7 @@ import Netpoll.Gen.Consts
 import Driver.Dial
 import Driver.Fd
 import Driver.Mgr
+import Driver.Life
 def main (args : List String) : IO UInt32 := do
   match args with
   | ["lb"] => Driver.Lb.main; return 0
@@ -30,4 +31,5 @@ def main (args : List String) : IO UInt32 := do
   | ["fd"] => Driver.Fd.main; return 0
   | ["mgr"] => Driver.Mgr.main; return 0
   | ["mgrspec", ops, impl] => Driver.Mgr.specMain ops impl; return 0
+  | ["life", trace] => Driver.Life.main trace; return 0
   | _ => IO.eprintln "usage: npdriver <mode> ... (see lean/Driver/Main.lean)"; return 2
